@@ -457,7 +457,7 @@ func runC19(r *Run, stratum string) *Violation {
 			}
 			continue
 		}
-		if l.getPhase() == 1 && l.remaining() == 0 && len(l.ready()) == 0 && len(l.topo.Migrating) == 0 {
+		if l.getPhase() == 1 && l.remaining() == 0 && len(l.ready()) == 0 && len(l.topo.Migrating) == 0 && r.W.ParkedNow() == 0 {
 			break
 		}
 		l.step(append(migActions(), resetActions()...))
@@ -490,6 +490,7 @@ func runC19(r *Run, stratum string) *Violation {
 		}
 		r.NonTriv = len(expected) >= 3
 	}
+	r.Calm()
 	if txnEnded && viol == nil {
 		checkTxnEnd()
 		l.stop()
